@@ -243,3 +243,7 @@ CLAUSES = [
     Clause("C18.unique_perms", multiset_cases, multiset_check, doc="each distinct rearrangement exactly once; caller's list untouched"),
     Clause("C18.perfect_matchings", matching_cases, matching_check, doc="(n-1)!! distinct perfect matchings; int/list/ndarray forms; odd n"),
 ]
+
+# every toqito call of this property is repeated with column-major copies of its array arguments (engine.call, layout twin)
+for _c in CLAUSES:
+    _c.layout_twin = True
